@@ -1,6 +1,7 @@
 package main
 
 import (
+	"fmt"
 	"go/ast"
 	"go/token"
 	"go/types"
@@ -934,5 +935,186 @@ func ruleNoSharedRetainedAddress(c *Ctx) {
 	c.stat("retained_addresses_in_loops", nSites)
 	if nSites == 0 {
 		c.und("sites", 0, "no loop hands the address of a loop-assigned variable to a retaining function (%d retaining calls seen): the sweepers' apply loops were not found", retainers)
+	}
+}
+
+// R17.ws-length-field
+func init() {
+	register(&Rule{ID: "R17.ws-length-field", Props: []string{"C17"}, Floor: 2,
+		Text: "a websocket frame announces the length it carries: in WriteWebSocketMessage the second header byte is either the payload length itself — then the guards that dominate that store entail len(data) <= 125, because 126 and 127 are the escape values — or the constant 126 followed by a 16-bit length — then they entail len(data) <= 0xFFFF — or the constant 127 followed by a 64-bit length. The bounds are collected from the comparisons of len(data) with constants on the dominating edges (if/else chains and tagless switches). A payload of exactly 126 bytes sent with the 7-bit form is read by every client as 'a 16-bit length follows': the reply is lost",
+		Run:  ruleWSLengthField})
+}
+
+func ruleWSLengthField(c *Ctx) {
+	fn := c.Func("internal/server", "", "WriteWebSocketMessage")
+	if fn == nil || fn.Decl.Body == nil {
+		c.und("anchors", 0, "WriteWebSocketMessage not found")
+		return
+	}
+	info := fn.Info()
+	// the payload: the []byte parameter
+	var data types.Object
+	for _, p := range fn.Decl.Type.Params.List {
+		for _, nm := range p.Names {
+			if o := info.ObjectOf(nm); o != nil {
+				if sl, ok := o.Type().Underlying().(*types.Slice); ok {
+					if b, ok := sl.Elem().Underlying().(*types.Basic); ok && b.Kind() == types.Uint8 {
+						data = o
+					}
+				}
+			}
+		}
+	}
+	if data == nil {
+		c.und("payload", fn.Decl.Pos(), "no []byte parameter")
+		return
+	}
+	isLenData := func(e ast.Expr) bool {
+		e = ast.Unparen(e)
+		// through conversions: byte(len(data)), uint64(len(data))
+		for {
+			call, ok := e.(*ast.CallExpr)
+			if !ok {
+				return false
+			}
+			if tv, ok := info.Types[call.Fun]; ok && tv.IsType() && len(call.Args) == 1 {
+				e = ast.Unparen(call.Args[0])
+				continue
+			}
+			if id, ok := ast.Unparen(call.Fun).(*ast.Ident); ok && id.Name == "len" && len(call.Args) == 1 {
+				if aid, ok := ast.Unparen(call.Args[0]).(*ast.Ident); ok && info.ObjectOf(aid) == data {
+					return true
+				}
+			}
+			return false
+		}
+	}
+	// locals that hold len(data)
+	lenVars := map[types.Object]bool{}
+	ast.Inspect(fn.Decl.Body, func(n ast.Node) bool {
+		if as, ok := n.(*ast.AssignStmt); ok && len(as.Lhs) == len(as.Rhs) {
+			for i, l := range as.Lhs {
+				if id, ok := ast.Unparen(l).(*ast.Ident); ok && isLenData(as.Rhs[i]) {
+					if o := info.ObjectOf(id); o != nil && countAssignments(info, fn.Decl.Body, o) == 1 {
+						lenVars[o] = true
+					}
+				}
+			}
+		}
+		return true
+	})
+	isLen := func(e ast.Expr) bool {
+		if isLenData(e) {
+			return true
+		}
+		e = ast.Unparen(e)
+		for {
+			if call, ok := e.(*ast.CallExpr); ok && len(call.Args) == 1 {
+				if tv, ok := info.Types[call.Fun]; ok && tv.IsType() {
+					e = ast.Unparen(call.Args[0])
+					continue
+				}
+			}
+			break
+		}
+		id, ok := e.(*ast.Ident)
+		return ok && lenVars[info.ObjectOf(id)]
+	}
+	fg := newFlowGraph(info, fn.Decl.Body)
+	// upper bound of len(data) entailed by the facts that dominate a location (-1: none)
+	upper := func(l Loc) int64 {
+		var best int64 = -1
+		tighten := func(v int64) {
+			if v >= 0 && (best < 0 || v < best) {
+				best = v
+			}
+		}
+		for _, f := range fg.DominatingFacts(l) {
+			if f.Tag != nil {
+				continue
+			}
+			be, ok := ast.Unparen(f.E).(*ast.BinaryExpr)
+			if !ok {
+				continue
+			}
+			op := be.Op
+			var k int64
+			switch {
+			case isLen(be.X):
+				tv, ok := info.Types[be.Y]
+				if !ok || tv.Value == nil {
+					continue
+				}
+				v, ok := constInt64(tv)
+				if !ok {
+					continue
+				}
+				k = v
+			case isLen(be.Y):
+				tv, ok := info.Types[be.X]
+				if !ok || tv.Value == nil {
+					continue
+				}
+				v, ok := constInt64(tv)
+				if !ok {
+					continue
+				}
+				k = v
+				op = map[token.Token]token.Token{token.LSS: token.GTR, token.GTR: token.LSS, token.LEQ: token.GEQ, token.GEQ: token.LEQ, token.EQL: token.EQL, token.NEQ: token.NEQ}[op]
+			default:
+				continue
+			}
+			// the fact is  len op k  (or its negation)
+			if f.Neg {
+				op = map[token.Token]token.Token{token.LSS: token.GEQ, token.GTR: token.LEQ, token.LEQ: token.GTR, token.GEQ: token.LSS, token.EQL: token.NEQ, token.NEQ: token.EQL}[op]
+			}
+			switch op {
+			case token.LEQ:
+				tighten(k)
+			case token.LSS:
+				tighten(k - 1)
+			case token.EQL:
+				tighten(k)
+			}
+		}
+		return best
+	}
+	n := 0
+	for _, b := range fg.G.Blocks {
+		if !fg.Reachable(b) {
+			continue
+		}
+		for i, nd := range b.Nodes {
+			as, ok := nd.(*ast.AssignStmt)
+			if !ok || len(as.Lhs) != 1 || len(as.Rhs) != 1 {
+				continue
+			}
+			ix, ok := ast.Unparen(as.Lhs[0]).(*ast.IndexExpr)
+			if !ok {
+				continue
+			}
+			if tv, ok := info.Types[ix.Index]; !ok || tv.Value == nil || tv.Value.String() != "1" {
+				continue
+			}
+			loc := Loc{b, i, nd}
+			ub := upper(loc)
+			rhs := as.Rhs[0]
+			if isLen(rhs) {
+				n++
+				c.check(ub >= 0 && ub <= 125, "len7@"+exprStr(rhs), as.Pos(), "the payload length is stored in the 7-bit field only under len(data) <= 125",
+					fmt.Sprintf("the payload length itself is stored in the second header byte although the guards only entail len(data) <= %d (-1: no bound): for a payload of 126 (or 127) bytes the byte is the escape value that announces an extended length, every client misreads the frame and the reply is lost", ub))
+				continue
+			}
+			if tv, ok := info.Types[rhs]; ok && tv.Value != nil {
+				if v, ok := constInt64(tv); ok && v == 126 {
+					n++
+					c.check(ub >= 0 && ub <= 0xFFFF, "len16", as.Pos(), "126 (a 16-bit length follows) is stored only under len(data) <= 0xFFFF",
+						fmt.Sprintf("126 announces a 16-bit length although the guards only entail len(data) <= %d (-1: no bound): a longer payload is truncated to 16 bits", ub))
+				}
+			}
+		}
+	}
+	if n == 0 {
+		c.und("stores", fn.Decl.Pos(), "no store to the second header byte found")
 	}
 }
